@@ -372,7 +372,13 @@ def roundtrip_check(op, root, cap, atypes, requested_graph, log_msgs):
     tdir = tempfile.mkdtemp(prefix="rt_", dir=os.path.join(root, "tmp"))
     name = op.get("name", "POL")
     decoy = bool(op.get("read_with_decoy_in_cwd"))
-    top = ["[ defaults ]", "1 1 no 1.0 1.0", "[ atomtypes ]"]
+    top = []
+    if op.get("read_with_defines"):
+        # the reading topology #defines the tags that guard interactions of the molecule (a run with -DFLEXIBLE):
+        # what the reader returns is the molecule with its guards, whatever is defined
+        tags = sorted({gd[1] for its in cap.molecule["inter"].values() for (_a, _p, gd) in its if gd})
+        top += [f"#define {t}" for t in tags] + ["#define POSRES"]
+    top += ["[ defaults ]", "1 1 no 1.0 1.0", "[ atomtypes ]"]
     seen = set()
     for a in cap.molecule["atoms"]:
         if a["atype"] not in seen:
